@@ -13,7 +13,9 @@
 import YashModel.Common.Proto
 import YashModel.Kernel.Model
 import YashModel.Kernel.Pipe
+import YashModel.Kernel.Step
 import YashModel.Kernel.Signal
+import YashModel.Kernel.SigStep
 open YashModel YashModel.Kernel YashModel.Proto
 
 def octDigits : Nat → Nat → List Char
@@ -77,112 +79,50 @@ def initK (limit : Nat) : K :=
 
 def errS (e : Errno) : String := e.name
 
-/-- applies the scratch-root guard before a path operation -/
-def rootGuard (k : K) (comps : List String) (f : Unit → K × String) : K × String :=
-  if comps.head? = some "" ∨ escapes k.cwd.length comps then (k, "ESCAPE") else f ()
-
-def runOp (k : K) (t : String) : K × String :=
+/-- a case token → typed operation (`none` = not an operation of this language) -/
+def parseOp (t : String) : Option Op :=
   match words t with
-  | ["open", p, a, fl, m] =>
-    match parseAccess a, parseOct m with
-    | some acc, some mode =>
-      rootGuard k (parsePath p) fun _ =>
-        match open' k (parsePath p) acc (parseFlags fl) mode with
-        | .ok fd k' => (k', s!"={fd}")
-        | .err e => (k, errS e)
-    | _, _ => (k, "?")
-  | ["read", fd, n] =>
-    match fd.toNat?, n.toNat? with
-    | some fd, some n => match readAny k fd n with
-      | .ok bs k' => (k', "=" ++ showBytes bs)
-      | .err e => (k, errS e)
-    | _, _ => (k, "?")
-  | ["write", fd, h] =>
-    match fd.toNat?, parseBytes h with
-    | some fd, some bs => match writeAny k fd bs with
-      | .ok n k' => (k', s!"={n}")
-      | .err e => (k, errS e)
-    | _, _ => (k, "?")
+  | ["open", p, a, fl, m] => do pure (.open (parsePath p) (← parseAccess a) (parseFlags fl) (← parseOct m))
+  | ["read", fd, n] => do pure (.read (← fd.toNat?) (← n.toNat?))
+  | ["write", fd, h] => do pure (.write (← fd.toNat?) (← parseBytes h))
   | ["seek", fd, w, d] =>
     let wh : Option Whence := match w with | "s" => some .set | "c" => some .cur | "e" => some .end_ | _ => none
-    match fd.toNat?, wh, d.toInt? with
-    | some fd, some wh, some d => match seekAny k fd wh d with
-      | .ok (some n) k' => (k', s!"={n}")
-      | .ok none k' => (k', "dir")
-      | .err e => (k, errS e)
-    | _, _, _ => (k, "?")
-  | ["dup", fd, min, c] =>
-    match fd.toNat?, min.toNat? with
-    | some fd, some min => match dup k fd min (c == "e") with
-      | .ok n k' => (k', s!"={n}")
-      | .err e => (k, errS e)
-    | _, _ => (k, "?")
-  | ["dup2", a, b] =>
-    match a.toNat?, b.toNat? with
-    | some a, some b => match dup2 k a b with
-      | .ok n k' => (k', s!"={n}")
-      | .err e => (k, errS e)
-    | _, _ => (k, "?")
-  | ["close", fd] =>
-    match fd.toNat? with
-    | some fd => (close k fd, "ok")
-    | none => (k, "?")
-  | ["getfd", fd] =>
-    match fd.toNat? with
-    | some fd => match getfd k fd with
-      | .ok c => (k, if c then "=e" else "=-")
-      | .error e => (k, errS e)
-    | none => (k, "?")
-  | ["setfd", fd, c] =>
-    match fd.toNat? with
-    | some fd => match setfd k fd (c == "e") with
-      | .ok _ k' => (k', "ok")
-      | .err e => (k, errS e)
-    | none => (k, "?")
-  | ["chdir", p] =>
-    rootGuard k (parsePath p) fun _ =>
-      match chdir k (parsePath p) with
-      | .ok _ k' => (k', "ok")
-      | .err e => (k, errS e)
-  | ["umask", m] =>
-    match parseOct m with
-    | some m => let (old, k') := setUmask k m; (k', "=" ++ toOct old)
-    | none => (k, "?")
-  | ["fstat", fd] =>
-    match fd.toNat? with
-    | some fd => match fstat k fd with
-      | .ok n => (k, if (getOfd k fd).any (·.2.pipe) then "=fifo" else showNode n)
-      | .error e => (k, errS e)
-    | none => (k, "?")
-  | ["stat", p] =>
-    rootGuard k (parsePath p) fun _ =>
-      match statPath k (parsePath p) with
-      | .ok n => (k, showNode n)
-      | .error e => (k, errS e)
-  | ["ls", p] =>
-    rootGuard k (parsePath p) fun _ =>
-      match listDir k (parsePath p) with
-      | .ok ns => (k, "=" ++ (if ns.isEmpty then "-" else ",".intercalate (sortStrings ns)))
-      | .error e => (k, errS e)
-  | ["cwd"] => (k, "=" ++ showPath k.cwd)
-  | ["pipe"] =>
-    match pipe' k with
-    | .ok (r, w) k' => (k', s!"={r},{w}")
-    | .err e => (k, errS e)
-  | ["nb", fd] =>
-    match fd.toNat? with
-    | some fd => match setNonblock k fd true with
-      | .ok b k' => (k', if b then "=1" else "=0")
-      | .err e => (k, errS e)
-    | none => (k, "?")
-  | ["rlim"] => (k, s!"={k.limit}")
-  | ["acc", fd] =>
-    match fd.toNat? with
-    | some fd => match getOfd k fd with
-      | some (_, o) => (k, if o.rd && o.wr then "=rw" else if o.wr then "=w" else "=r")
-      | none => (k, "EBADF")
-    | none => (k, "?")
-  | _ => (k, "?")
+    do pure (.seek (← fd.toNat?) (← wh) (← d.toInt?))
+  | ["dup", fd, min, c] => do pure (.dup (← fd.toNat?) (← min.toNat?) (c == "e"))
+  | ["dup2", a, b] => do pure (.dup2 (← a.toNat?) (← b.toNat?))
+  | ["close", fd] => do pure (.close (← fd.toNat?))
+  | ["getfd", fd] => do pure (.getfd (← fd.toNat?))
+  | ["setfd", fd, c] => do pure (.setfd (← fd.toNat?) (c == "e"))
+  | ["chdir", p] => some (.chdir (parsePath p))
+  | ["umask", m] => do pure (.umask (← parseOct m))
+  | ["fstat", fd] => do pure (.fstat (← fd.toNat?))
+  | ["stat", p] => some (.stat (parsePath p))
+  | ["ls", p] => some (.ls (parsePath p))
+  | ["cwd"] => some .cwd
+  | ["acc", fd] => do pure (.acc (← fd.toNat?))
+  | ["pipe"] => some .pipe
+  | ["nb", fd] => do pure (.nb (← fd.toNat?))
+  | ["rlim"] => some .rlim
+  | _ => none
+
+/-- how an observation is printed; the operation decides between the few forms a number or flag takes -/
+def showObs (op : Op) : Obs → String
+  | .err e => e.name
+  | .ok => "ok"
+  | .num n => match op with
+    | .umask _ => "=" ++ toOct n
+    | _ => s!"={n}"
+  | .pair a b => s!"={a},{b}"
+  | .bytes b => "=" ++ showBytes b
+  | .flag b => match op with
+    | .nb _ => if b then "=1" else "=0"
+    | _ => if b then "=e" else "=-"
+  | .node n => showNode n
+  | .fifo => "=fifo"
+  | .dirOffset => "dir"
+  | .names ns => "=" ++ (if ns.isEmpty then "-" else ",".intercalate (sortStrings ns))
+  | .path p => "=" ++ showPath p
+  | .access rd wr => if rd && wr then "=rw" else if wr then "=w" else "=r"
 
 /-- distinct bound paths (newest binding wins), without the root and the standard files -/
 def treePaths (t : Tree) : List Path :=
@@ -219,11 +159,17 @@ def runSeq (line : String) : String :=
     let limit : Nat := match (words hd).filterMap (fun w => if w.startsWith "lim=" then (w.drop 4).toString.toNat? else none) with
       | n :: _ => n
       | [] => 64
-    let ops := ops.filter (· ≠ "")
-    let (k, outs) := ops.foldl (fun (acc : K × List String) op =>
-      let (k', o) := runOp acc.1 op
-      (k', o :: acc.2)) (initK limit, [])
-    " ".intercalate outs.reverse ++ " | " ++ showFinal k
+    let toks := ops.filter (· ≠ "")
+    -- everything the model column shows goes through `Kernel.run` (Step.lean); a token that is not an
+    -- operation prints `?` and is skipped
+    let parsed := toks.map parseOp
+    let (obs, k) := run (initK limit) (parsed.filterMap id)
+    let rec render : List (Option Op) → List Obs → List String
+      | [], _ => []
+      | none :: r, os => "?" :: render r os
+      | some op :: r, o :: os => showObs op o :: render r os
+      | some _ :: r, [] => "?" :: render r []
+    " ".intercalate (render parsed obs) ++ " | " ++ showFinal k
 
 /-! ## process/signal cases: `P <class>; op; op; fork[op, op, …]; …` -/
 
@@ -250,61 +196,42 @@ def showDisp : Disp → String
 def showStatus : Status → String
   | .running => "run" | .exited n => s!"x{n}" | .signaled s => s!"s{s.name}"
 
-/-- one operation of process `me`; `par` is its parent while `me` is a forked child (`none` at top level).
-    Returns the new (`me`, `par`) and the token (none when the operation does not return). -/
-def step (me : Proc) (par : Option Proc) (t : String) : Proc × Option Proc × Option String :=
-  let tok (p : Proc) (x : String) : Option String := if p.alive then some x else none
+def parseSOp (t : String) : SOp :=
   match words t with
-  | ["blk", l] => let p := block me (parseSigs l); (p, par, tok p "ok")
-  | ["unb", l] => let p := unblock me (parseSigs l); (p, par, tok p "ok")
-  | ["set", l] => let p := setMask me (SigSet.ofList (parseSigs l)); (p, par, tok p "ok")
-  | ["act", s, d] =>
-    match parseSig s, parseDisp d with
-    | some s, some d => let (old, p) := act me s d; (p, par, some ("=" ++ showDisp old))
-    | _, _ => (me, par, some "?")
-  | ["get", s] =>
-    match parseSig s with
-    | some s => (me, par, some ("=" ++ showDisp (me.disp s)))
-    | none => (me, par, some "?")
-  | ["raise", s] | ["kself", s] =>
-    match parseSig s with
-    | some s => let p := generate me s; (p, par, tok p "ok")
-    | none => (me, par, some "?")
-  | ["kgrp", s] =>
-    match parseSig s with
-    | some s => let p := generate me s; (p, par.map (generate · s), tok p "ok")
-    | none => (me, par, some "?")
-  | ["kpar", s] =>
-    match parseSig s with
-    | some s => (me, par.map (generate · s), some "ok")
-    | none => (me, par, some "?")
-  | ["pend"] => (me, par, some ("=" ++ showSet me.pending))
-  | ["mask"] => (me, par, some ("=" ++ showSet me.mask))
-  | ["caught"] => let (l, p) := takeCaught me; (p, par, some ("=" ++ showList l))
-  | ["exit", n] => (exit me (n.toNat?.getD 0), par, none)
-  | _ => (me, par, some "?")
+  | ["blk", l] => .blk (parseSigs l)
+  | ["unb", l] => .unb (parseSigs l)
+  | ["set", l] => .set (parseSigs l)
+  | ["act", s, d] => match parseSig s, parseDisp d with
+    | some s, some d => .act s d
+    | _, _ => .bad
+  | ["get", s] => (parseSig s).elim .bad .get
+  | ["raise", s] | ["kself", s] => (parseSig s).elim .bad .raise
+  | ["kgrp", s] => (parseSig s).elim .bad .kgrp
+  | ["kpar", s] => (parseSig s).elim .bad .kpar
+  | ["pend"] => .pend
+  | ["mask"] => .mask
+  | ["caught"] => .caught
+  | ["exit", n] => .exit (n.toNat?.getD 0)
+  | _ => .bad
 
-def runChild (par : Proc) (ops : List String) : Proc × String :=
-  let (c, p, toks) := ops.foldl (fun (acc : Proc × Proc × List String) op =>
-    let (c, p, toks) := acc
-    if !c.alive then acc else
-      match step c (some p) op with
-      | (c', p', some t) => (c', p'.getD p, t :: toks)
-      | (c', p', none) => (c', p'.getD p, toks)) (fork par, par, [])
-  let c := exit c 0
-  (generate p .CHLD, "{" ++ ",".intercalate toks.reverse ++ "}" ++ showStatus c.status)
+def showSObs : SObs → String
+  | .ok => "ok"
+  | .disp d => "=" ++ showDisp d
+  | .sigs l => "=" ++ (if l.isEmpty then "-" else "+".intercalate (l.map Sig.name))
+  | .unknown => "?"
 
+/-- everything the model column of a `P` case shows goes through `Signal.sstep` / `Signal.runChild` -/
 def runTop (ops : List String) : String :=
   let (p, toks) := ops.foldl (fun (acc : Proc × List String) op =>
     let (p, toks) := acc
     if !p.alive then acc
     else if op.startsWith "fork[" then
       let body := ((op.drop 5).toString.splitOn "]").headD ""
-      let cops := (splitTrim body ",").filter (· ≠ "")
-      let (p', t) := runChild p cops
-      (p', t :: toks)
-    else match step p none op with
-      | (p', _, some t) => (p', t :: toks)
+      let cops := ((splitTrim body ",").filter (· ≠ "")).map parseSOp
+      let (p', obs, st) := runChild p cops
+      (p', ("{" ++ ",".intercalate (obs.map showSObs) ++ "}" ++ showStatus st) :: toks)
+    else match sstep p none (parseSOp op) with
+      | (p', _, some t) => (p', showSObs t :: toks)
       | (p', _, none) => (p', toks)) (Proc.init, [])
   let fin :=
     if p.alive then
